@@ -486,6 +486,28 @@ def seq_case(rng, doc, sel, tags=(), hist=None, flags=None, jopts=None):
                 tags=["pages", "sequence"] + sorted(doc.features) + list(tags) + ["hist:" + hkind, "cfg:" + (flags.decode() or "-")], kind="malformed")
 
 
+def unreadable_case(rng, doc, sel, num, nbytes, tags=()):
+    """an encrypted source in which stream `num`, which a selected page reaches, cannot be decrypted: the import returns an
+    error, or the copy's stream data equals the source's — and the source has none, so a success is a difference"""
+    data = docs.write_encrypted(doc, rng, num, nbytes)
+    g = dict(doc.objs)
+    v = g[num]
+    g[num] = Stream(v.d, b"\x00<data that cannot be decrypted>\x00")
+    tr = {"Root": Ref(doc.root)}
+    flags = rnd_config(rng, False)
+
+    def chk(r, g=g, tr=tr, sel=list(sel), exp=doc.expect):
+        if r[0] == "ERR":
+            return None
+        if r[0] != "OK":
+            return "importing must not %s (%s)" % (r[0], r[1][:80])
+        why = G.judge_import(g, tr, sel, r[1], expect=exp, page_entries=True)
+        return "the import succeeded although the data of source stream %d (%d encrypted bytes: not decryptable), which the page uses, " \
+               "cannot be read: no copy can be equal%s" % (num, nbytes, " — " + why if why else "")
+    return Case("import", [b"s", data, b",".join(b"%d" % i for i in sel), flags or b"-"], check=chk, model=False,
+                tags=["pages", "unreadable-stream"] + sorted(doc.features) + list(tags) + ["cfg:" + (flags.decode() or "-")], kind="malformed")
+
+
 def corpus_cases(tier):
     out = []
     for fn in sorted(glob.glob(os.path.join(REPO, "files", "*.pdf"))):
@@ -691,6 +713,17 @@ def generate(rng, tier):
         for sel in sels:
             hk = rng.choice(["none", "none", "none", "render", "ops", "decode-all"])
             yield seq_case(rng, doc, sel, tags=["seq:" + fail, "seq-share:" + share], hist=rnd_page_history(rng, doc, sel, hk))
+
+
+    # encrypted sources (AESV2) in which a stream the page reaches cannot be decrypted (1..15 bytes, or an IV and a partial
+    # block): under an untyped reference (soft-mask group, also behind another form; an untyped page entry) and a typed one
+    for i in range(8 if quick else 120):
+        kind = docs.UNREADABLE_KINDS[i % len(docs.UNREADABLE_KINDS)]
+        doc = docs.gen_doc(rng, npages=rng.choice([1, 2]))
+        pi, num = docs.plant_unreadable(doc, rng, kind)
+        nbytes = rng.choice([rng.randrange(1, 16), rng.randrange(17, 32), 5])
+        sel = [pi] if i % 2 else list(range(len(doc.pages)))
+        yield unreadable_case(rng, doc, sel, num, nbytes)
 
 
 # The typed PatternDict has no field for /Type and /PatternType and no catch-all: the copy of a tiling pattern lacks both
